@@ -34,6 +34,7 @@ type TierSpec struct {
 	TimeBudgetS int            `json:"time_budget_s"`
 	QueryMs     int            `json:"query_ms"`
 	FreshMs     int            `json:"fresh_ms"`
+	AllocBound  int64          `json:"alloc_bound"`
 	Entries     []string       `json:"entries"` // optional subset/superset of entries for this tier
 }
 
@@ -174,8 +175,8 @@ func run() int {
 	var entries []EntrySpec
 	for pi, ps := range spec.Packages {
 		pkgDirAbs := filepath.Join(*flagRepo, ps.PkgDir)
-		for _, f := range ps.Files {
-			repl[filepath.Join(pkgDirAbs, "zz_verif_"+strings.ToLower(spec.Property)+"_"+filepath.Base(f))] = filepath.Join(hdir, f)
+		for fi, f := range ps.Files {
+			repl[filepath.Join(pkgDirAbs, fmt.Sprintf("zz_verif_%s_%d_%s", strings.ToLower(spec.Property), fi, filepath.Base(f)))] = filepath.Join(hdir, f)
 		}
 		pkgName := ""
 		b, err := os.ReadFile(filepath.Join(hdir, ps.Files[0]))
@@ -305,6 +306,8 @@ func run() int {
 	if tier.TimeBudgetS > 0 {
 		sh.Deadline = t0.Add(time.Duration(tier.TimeBudgetS) * time.Second * time.Duration(len(entries)))
 	}
+	sh.AllocBound = tier.AllocBound
+	sh.Property = spec.Property
 	sh.FreshMs = tier.FreshMs
 	if sh.FreshMs == 0 {
 		sh.FreshMs = 60000
